@@ -91,6 +91,36 @@ def storage_history(case):
         shutil.rmtree(d, ignore_errors=True)
 
 
+def two_entities_case(case):
+    """two entities in one process: X keeps a storage class in files, Y serves the same class in memory.  What Y's
+    application is handed must be what Y was configured for (the transmitted bytes, not a file with a header)"""
+    from pynetdicom2 import applicationentity as aem
+    from . import msgs
+
+    def service_for(classes):
+        def svc(asce, ctx, *a):
+            return None
+        svc.sop_classes = list(classes)
+        return svc
+    K = '1.2.826.0.1.3680043.9.4.1'
+    filed = service_for([K])
+    filed.store_in_file = True
+    x = aem.ClientAE('ENTITYX')
+    aem.AE.add_scp(x, filed)
+    y = aem.ClientAE('ENTITYY')
+    aem.AE.add_scp(y, service_for([K]))
+    if K not in x.store_in_file:
+        return 'entity X was configured to keep class %s in files; its store_in_file is %r' % (K, sorted(x.store_in_file))
+    if y.store_in_file:
+        return ('entity Y serves class %s in memory, but after entity X of the same process was configured to keep that class in '
+                'files, Y keeps %r in files too: its handler would be handed a file with a header, not the transmitted data set'
+                % (K, sorted(y.store_in_file)))
+    kept = getattr(msgs.real_acceptor(y).dul, 'store_in_file', None)
+    if kept:
+        return 'the acceptor of entity Y tells its provider to keep %r in files' % (sorted(kept),)
+    return None
+
+
 # ------------------------------------------------------------------ S3: the whole stack
 def stack_case(case):
     import pydicom
@@ -192,6 +222,8 @@ def stack_case(case):
 
 def guarded(case):
     try:
+        if case['kind'] == 'two-entities':
+            return two_entities_case(case)
         return (storage_history if case['kind'] == 'dir' else stack_case)(case)
     except BaseException as e:  # pylint: disable=broad-except
         return 'harness:' + common.describe_exc(e)
@@ -225,6 +257,7 @@ def run(chk):
     cases.append({'kind': 'dir', 'uids': ['1.2.3'], 'ts': 0, 'pre': ['1.2.3.dcm']})
     cases.append({'kind': 'dir', 'uids': ['1.2.3', '1.2.3'], 'ts': 1, 'pre': ['1.2.3.dcm', '1.2.3.dcm_1']})
     cases.append({'kind': 'dir', 'uids': ['5.5', '1.2.3', '5.5'], 'ts': 0, 'pre': ['1.2.3.dcm', '5.5.dcm', 'other.txt']})
+    cases.append({'kind': 'two-entities'})
     seed = 0
     limits = [(16384, 16384), (128, 65536), (65536, 128), (0, 1024), (1024, 0), (24, 300), (300, 64)]
     n = 14 if tier == 'quick' else 400
